@@ -54,6 +54,84 @@ func c14Spaces(c *fw.Ctx) {
 				})
 			}
 		})
+	c.Space("routing-letters", "for each of the 26 letters x: patterns xq.zone. (4 case spellings) with and without zone. (4 spellings) × questions www.xq.zone., xq.zone., other.zone. (4 spellings): the longest pattern is chosen whatever letter carries the case difference, REFUSED only when nothing encloses the name; one case per letter; non-trivial: all", true,
+		func(emit func(func(*fw.R))) {
+			for x := byte('a'); x <= 'z'; x++ {
+				x := x
+				emit(func(r *fw.R) {
+					r.Nontrivial()
+					c14RouteLetters(r, x)
+				})
+			}
+		})
+}
+
+// c14RouteLetters: "ignoring case" for every letter of the alphabet. The pattern universe of the routing space
+// uses a handful of letters; a fold that misses one letter (a table or a range test off by one at 'A', 'Z', 'a' or
+// 'z') shows only with that letter. For each letter x: the patterns xq.zone. and zone. in four spellings each, the
+// question www.xq.zone. / xq.zone. in four spellings; the longer pattern must be chosen, and with the longer pattern
+// alone registered a question below zone. but not below it must be REFUSED while one below it is served.
+func c14RouteLetters(r *fw.R, x byte) {
+	spell := func(l string, k int) string { // k: 0 lower, 1 upper, 2 first letter upper, 3 second letter upper
+		b := []byte(l)
+		up := func(i int) {
+			if i < len(b) && b[i] >= 'a' && b[i] <= 'z' {
+				b[i] -= 32
+			}
+		}
+		switch k {
+		case 1:
+			for i := range b {
+				up(i)
+			}
+		case 2:
+			up(0)
+		case 3:
+			up(1)
+		}
+		return string(b)
+	}
+	label := string([]byte{x, 'q'})
+	for pk := 0; pk < 4; pk++ {
+		for qk := 0; qk < 4; qk++ {
+			for _, zoneToo := range []bool{true, false} {
+				mux := dns.NewServeMux()
+				var called []string
+				long := spell(label, pk) + ".zone."
+				mux.HandleFunc(long, func(w dns.ResponseWriter, m *dns.Msg) { called = append(called, "long") })
+				if zoneToo {
+					mux.HandleFunc(spell("zone", (pk+1)%4)+".", func(w dns.ResponseWriter, m *dns.Msg) { called = append(called, "zone") })
+				}
+				for _, q := range []struct{ name, want string }{
+					{"www." + spell(label, qk) + "." + spell("zone", qk) + ".", "long"},
+					{spell(label, qk) + ".zone.", "long"},
+					{"other." + spell("zone", qk) + ".", "zone"},
+				} {
+					want := q.want
+					if want == "zone" && !zoneToo {
+						want = "REFUSED"
+					}
+					called = called[:0]
+					req := new(dns.Msg)
+					req.SetQuestion(q.name, dns.TypeA)
+					w := &recWriter{}
+					mux.ServeDNS(w, req)
+					got := "REFUSED"
+					if len(called) == 1 {
+						got = called[0]
+					} else if len(called) > 1 {
+						got = fmt.Sprint(called)
+					} else if len(w.msgs) != 1 || w.msgs[0].Rcode != dns.RcodeRefused {
+						got = "neither a handler nor a REFUSED reply"
+					}
+					r.Count("routings", 1)
+					if got != want {
+						r.Fail("routing/letter-case", "patterns %q%s, question %q: routed to %s, want %s (suffix matching ignores ASCII case for every letter)", long, map[bool]string{true: " and zone. (" + spell("zone", (pk+1)%4) + ".)", false: ""}[zoneToo], q.name, got, want)
+					}
+				}
+			}
+		}
+	}
 }
 
 func c14Route(r *fw.R, mask int, noDot bool) {
